@@ -11,7 +11,7 @@ import traceback
 from harness import build, maptrace, taxo
 from harness.traces import validate
 
-SCHEMES = ['structural', 'reversed', 'shared', 'slashed']
+SCHEMES = ['structural', 'reversed', 'shared', 'slashed', 'longtop']
 
 CLAUSES = {
     101: ('C01', 'chunk after the run finished'),
